@@ -99,6 +99,10 @@ def main():
             opts['cuts'] = 'reduce'
         elif a == '--cutadd':
             opts['cuts'] = 'add'
+        elif a == '--quo':
+            opts['cuts'] = 'reduce'
+            opts['loopcuts'] = [{'fn': 'Decimal.QuoWithMode', 'phis': ['exp', 'trunc'], 'allocs': ['sig', 'rem', 'oSig'], 'args': ['sig', 'rem', 'exp', 'trunc', 'oSig'], 'hook': 'vlc_quo128'},
+                                {'fn': 'Decimal.QuoWithMode', 'phis': ['exp', 'sig64', 'rem64', 'carry'], 'allocs': ['oSig'], 'args': ['sig64', 'rem64', 'carry', 'exp', 'oSig'], 'hook': 'vlc_quo64'}]
         elif a == '--slow':
             opts['trace_slow'] = True
         else:
